@@ -1,5 +1,6 @@
 import St4sd.Model.FsAtomic
 import St4sd.Model.StatusFile
+import St4sd.Model.FsConc
 /-!
 Witnesses for C14: the code *before* the proposed repairs violates the full statement.  The harness
 replays the same inputs on the real code (`harness/c14.py`, `CORPUS_HISTORIES` and the traced writers).
@@ -49,5 +50,44 @@ write is logged, then the partially written temporary file is renamed over the t
 theorem rename_after_failed_write_installs_partial_file :
     run (writerTraceErrRenameAnyway ['x'] ['t'] [['{'], ['}']] 2) fsOld ['t'] = some ['{'] ∧
     run (writerTraceErrGiveUp ['x'] ['t'] [['{'], ['}']] 2) fsOld ['t'] = some ['o', 'l', 'd'] := by decide
+
+/-! ### two concurrent updates that share one staging path -/
+section Shared
+open St4sd.FsConc
+
+/-- both updates stage their text in `x` (a fixed name such as `status.txt.tmp`): update 0 opens `x`,
+then update 1 runs completely (`open x` truncates the same file, writes `123`, closes, renames `x` over `t`),
+then update 0 resumes: its handle now refers to the file named `t`. -/
+def sharedTmpTrace : List Ev :=
+  [.openW 0 ['x'], .openW 1 ['x'], .write 1 ['1', '2', '3'], .close 1, .rename ['x'] ['t'],
+   .write 0 ['a'], .close 0, .rename ['x'] ['t']]
+
+def fsOldC : St := mkSt [(['t'], ['o', 'l', 'd'])]
+
+/-- C14e — **shared staging path ⇒ mixed file**: after update 1 the target holds `123`; the resumed update 0
+writes `a` at its own position 0 *into the live target* (in place, no rename; its own rename finds no `x`):
+the target ends as `a23` — neither the old version, nor the text of update 0 (`a`), nor that of update 1
+(`123`).  The protocol checker rejects the trace; with two different staging paths the same schedule is safe
+(`Props.C14.interleaved_writers_safe`). -/
+theorem shared_tmp_path_mixes_versions :
+    content (crun (sharedTmpTrace.take 5) fsOldC) ['t'] = some ['1', '2', '3'] ∧
+    content (crun (sharedTmpTrace.take 6) fsOldC) ['t'] = some ['a', '2', '3'] ∧
+    content (crun sharedTmpTrace fsOldC) ['t'] = some ['a', '2', '3'] ∧
+    concSafe ['t'] sharedTmpTrace = false ∧
+    firstMixed sharedTmpTrace fsOldC ['t'] [['a'], ['1', '2', '3']] = some 6 := by decide
+
+/-- the same schedule with the staging paths `x` and `y`: every crash point shows a complete version -/
+theorem distinct_tmp_paths_same_schedule_safe :
+    concSafe ['t'] (interleave ['t'] [⟨['x'], [['a']]⟩, ⟨['y'], [['1', '2', '3']]⟩] (fun _ => 0) [0, 1, 1, 1, 1, 0, 0, 0]) = true ∧
+    firstMixed (interleave ['t'] [⟨['x'], [['a']]⟩, ⟨['y'], [['1', '2', '3']]⟩] (fun _ => 0) [0, 1, 1, 1, 1, 0, 0, 0])
+      fsOldC ['t'] [['a'], ['1', '2', '3']] = none := by decide
+
+/-- a longer text written through a handle whose file another update truncated leaves a hole:
+update 0 has written `ab` (position 2) when update 1 truncates the shared staging file -/
+theorem shared_tmp_truncation_leaves_hole :
+    content (crun [.openW 0 ['x'], .write 0 ['a', 'b'], .openW 1 ['x'], .write 0 ['c'], .close 0,
+      .rename ['x'] ['t']] fsOldC) ['t'] = some ['\x00', '\x00', 'c'] := by decide
+
+end Shared
 
 end St4sd.C14.Witness
